@@ -604,7 +604,7 @@ class Exec(object):
                 rec = self.make_recorder(run)
             except OSError as err:
                 # the constructor gave up with an error of its own while a journal was lying around
-                refused = jpre and not isinstance(err, Injected) and self.fs.injected is None
+                refused = jpre and not isinstance(err, Injected)
                 self.mark('start', refused=refused, jpre=jpre, ok=False)
                 return 'refused' if refused else 'aborted'
             self.mark('start', refused=False, jpre=jpre, ok=True)
